@@ -7,6 +7,7 @@ import (
 	"errors"
 	"fmt"
 	"os"
+	"sort"
 	"strings"
 	"testing"
 	"time"
@@ -67,23 +68,70 @@ type row struct {
 
 var errNoSQL = errors.New("c06: the fake SqlConn executes no statements")
 
-// fakeConn is the sqlx.SqlConn handed to sqlc; every real access goes through the closures.
-type fakeConn struct{}
+// fakeConn is the sqlx.SqlConn handed to sqlc; every real access goes through the closures.  The
+// statements it is asked to run directly (the *NoCache pass-through methods of CachedConn) are
+// only recorded.
+type fakeConn struct{ log *connLog }
 
-func (fakeConn) Exec(string, ...any) (sql.Result, error)                        { return nil, errNoSQL }
-func (fakeConn) ExecCtx(context.Context, string, ...any) (sql.Result, error)    { return nil, errNoSQL }
-func (fakeConn) Prepare(string) (sqlx.StmtSession, error)                       { return nil, errNoSQL }
-func (fakeConn) PrepareCtx(context.Context, string) (sqlx.StmtSession, error)   { return nil, errNoSQL }
-func (fakeConn) QueryRow(any, string, ...any) error                             { return errNoSQL }
-func (fakeConn) QueryRowCtx(context.Context, any, string, ...any) error         { return errNoSQL }
-func (fakeConn) QueryRowPartial(any, string, ...any) error                      { return errNoSQL }
-func (fakeConn) QueryRowPartialCtx(context.Context, any, string, ...any) error  { return errNoSQL }
-func (fakeConn) QueryRows(any, string, ...any) error                            { return errNoSQL }
-func (fakeConn) QueryRowsCtx(context.Context, any, string, ...any) error        { return errNoSQL }
-func (fakeConn) QueryRowsPartial(any, string, ...any) error                     { return errNoSQL }
-func (fakeConn) QueryRowsPartialCtx(context.Context, any, string, ...any) error { return errNoSQL }
-func (fakeConn) RawDB() (*sql.DB, error)                                        { return nil, errNoSQL }
-func (fakeConn) Transact(func(sqlx.Session) error) error                        { return errNoSQL }
+type connCall struct {
+	method string
+	dest   any
+	q      string
+	args   []any
+}
+
+type connLog struct{ calls []connCall }
+
+func (f fakeConn) rec(method string, dest any, q string, args []any) {
+	if f.log != nil {
+		f.log.calls = append(f.log.calls, connCall{method, dest, q, args})
+	}
+}
+
+func (f fakeConn) Exec(q string, a ...any) (sql.Result, error) {
+	f.rec("Exec", nil, q, a)
+	return nil, errNoSQL
+}
+func (f fakeConn) ExecCtx(_ context.Context, q string, a ...any) (sql.Result, error) {
+	f.rec("ExecCtx", nil, q, a)
+	return nil, errNoSQL
+}
+func (fakeConn) Prepare(string) (sqlx.StmtSession, error)                     { return nil, errNoSQL }
+func (fakeConn) PrepareCtx(context.Context, string) (sqlx.StmtSession, error) { return nil, errNoSQL }
+func (f fakeConn) QueryRow(v any, q string, a ...any) error {
+	f.rec("QueryRow", v, q, a)
+	return errNoSQL
+}
+func (f fakeConn) QueryRowCtx(_ context.Context, v any, q string, a ...any) error {
+	f.rec("QueryRowCtx", v, q, a)
+	return errNoSQL
+}
+func (f fakeConn) QueryRowPartial(v any, q string, a ...any) error {
+	f.rec("QueryRowPartial", v, q, a)
+	return errNoSQL
+}
+func (f fakeConn) QueryRowPartialCtx(_ context.Context, v any, q string, a ...any) error {
+	f.rec("QueryRowPartialCtx", v, q, a)
+	return errNoSQL
+}
+func (f fakeConn) QueryRows(v any, q string, a ...any) error {
+	f.rec("QueryRows", v, q, a)
+	return errNoSQL
+}
+func (f fakeConn) QueryRowsCtx(_ context.Context, v any, q string, a ...any) error {
+	f.rec("QueryRowsCtx", v, q, a)
+	return errNoSQL
+}
+func (f fakeConn) QueryRowsPartial(v any, q string, a ...any) error {
+	f.rec("QueryRowsPartial", v, q, a)
+	return errNoSQL
+}
+func (f fakeConn) QueryRowsPartialCtx(_ context.Context, v any, q string, a ...any) error {
+	f.rec("QueryRowsPartialCtx", v, q, a)
+	return errNoSQL
+}
+func (fakeConn) RawDB() (*sql.DB, error)                 { return nil, errNoSQL }
+func (fakeConn) Transact(func(sqlx.Session) error) error { return errNoSQL }
 func (fakeConn) TransactCtx(context.Context, func(context.Context, sqlx.Session) error) error {
 	return errNoSQL
 }
@@ -107,16 +155,31 @@ type entity struct {
 	idxLoaded bool          // an index read loaded the row since the last invalidation (primary entry may carry the safety gap)
 	customTTL time.Duration // longest explicit expiry set on the primary key since the last invalidation
 
-	// fault-injecting members only
-	dirty        bool      // an invalidation's DEL did not reach the store and none has since
+	// fault-injecting members only; per key (primary, index): the two keys of a row travel in one
+	// DEL command when one node owns both, in two commands to two nodes otherwise
+	dirtyK       [2]bool   // an invalidation's DEL of this key did not reach the store and none has since
 	dirtyInv     time.Time // invocation instant of the first such invalidation
 	dirtyRet     time.Time // return instant of the last such invalidation
-	cleanerMaybe int       // invalidations after which a cleaner task may be pending
-	cleanerDone  int       // cleaner DELs on this row's keys that the server executed
+	cleanerMaybe [2]int    // invalidations after which a cleaner task may be pending for the key
+	cleanerDone  [2]int    // cleaner DELs on the key that its node executed
 	hasDeadline  bool
 }
 
 func (e *entity) keys() []string { return []string{e.pkey, e.ikey} }
+func (e *entity) dirty() bool    { return e.dirtyK[0] || e.dirtyK[1] }
+
+// node is one cache node: a simulated Redis server of its own.  The single-node constructions
+// have exactly one.
+type node struct {
+	idx       int
+	srv       *simredis.Server
+	addr      string
+	weight    int
+	down      simredis.Kind // outage in force: every command (handshakes excepted) fails this way
+	faults    []time.Time   // instants of injected failures (for the breaker estimate)
+	nFault    int
+	lastFault time.Time
+}
 
 const (
 	qPrimary = 0
@@ -168,6 +231,7 @@ type call struct {
 	got        row
 	out        outcome
 	own        []*qexec
+	withExp    bool // rTake through Cache.TakeWithExpire
 }
 
 type stepKind int
@@ -180,9 +244,13 @@ const (
 	kSetCache
 	kSetCacheExp
 	kDelCache
+	kNoCache
 )
 
-var stepKindNames = [...]string{"read", "exec-upsert", "exec-delete", "exec-db-error", "set-cache", "set-cache-with-expire", "del-cache"}
+var stepKindNames = [...]string{"read", "exec-upsert", "exec-delete", "exec-db-error", "set-cache", "set-cache-with-expire", "del-cache", "no-cache-pass-through"}
+
+var noCacheNames = [...]string{"QueryRowNoCache", "ExecNoCache", "QueryRowsNoCache", "QueryRowPartialNoCache", "QueryRowsPartialNoCache"}
+var noCacheConnMethods = [...]string{"QueryRowCtx", "ExecCtx", "QueryRowsCtx", "QueryRowPartialCtx", "QueryRowsPartialCtx"}
 
 type faultKind int
 
@@ -214,6 +282,10 @@ func (s snap) missFrom(inv time.Time) bool { return !s.ex || (s.ttl > 0 && !inv.
 type step struct {
 	kind    stepKind
 	ent     *entity
+	more    []*entity // further rows written / invalidated by the same call (kWrite, kDelete, kDelCache)
+	keyList []string  // the keys handed to the call when more than one row is involved
+	nocache int       // kNoCache: which pass-through method
+	only    int       // kDelCache of a single row: 1 + index of the only key handed to the call (0: both)
 	readers []*call
 	qLat    time.Duration
 	qYields int
@@ -225,9 +297,17 @@ type step struct {
 	fault      faultKind
 	lossy      simredis.Kind
 	lossyCmd   string
-	faultExt   time.Duration // fErrDEL: the rule outlives the step by this much
-	outage     bool          // the step runs while the store is down
+	faultExt   time.Duration   // fErrDEL: the rule outlives the step by this much
+	outK       map[string]bool // keys whose node is down while the step runs
 	breakerRsk bool
+
+	// per node, at the start of the step
+	nfPre     []int
+	riskPre   []bool
+	downPre   []bool
+	otherDown bool // a node that owns none of the step's keys is down
+	taskID    int
+	connPre   int
 
 	// runtime
 	pre        [2]snap // primary key, index key
@@ -261,21 +341,32 @@ type delExec struct {
 	harness bool
 }
 
+func (st *step) ents() []*entity { return append([]*entity{st.ent}, st.more...) }
+
+// out: the node owning key k is down for the whole step
+func (st *step) out(k string) bool { return st.outK[k] }
+func (st *step) anyOut() bool      { return len(st.outK) > 0 }
+
 type world struct {
 	r    *simrt.Run
 	t    *simrt.Tape
 	tier string
 
-	srv   *simredis.Server
-	tw    *collection.TimingWheel
-	cc    sqlc.CachedConn
-	cache cache.Cache // nil unless the harness built the node itself
-	conn  fakeConn
-	errNF error
+	nodes   []*node
+	owner   map[string]*node // the node that serves a key (cluster: as observed, see observe)
+	cluster bool
+	pfx     string // run-specific part of the key names (cluster: moves the keys around the ring)
+	tw      *collection.TimingWheel
+	cc      sqlc.CachedConn
+	cache   cache.Cache // nil unless the harness built the cache value itself
+	conn    fakeConn
+	errNF   error
+	optDesc string
 
 	variant int
 	faulty  bool
 	e, nfe  time.Duration
+	maxJump time.Duration // longest single clock advance (one wheel tick per virtual second)
 
 	ents      []*entity
 	byKey     map[string]*entity
@@ -288,9 +379,8 @@ type world struct {
 	rules     []*rule
 	dels      []delExec
 	htask     map[int]bool
-	faults    []time.Time // instants of injected store failures (for the breaker estimate)
+	taskCmds  map[int]int // store commands sent, by task
 	lastFault time.Time
-	down      simredis.Kind // store outage in force: every command (handshakes excepted) fails this way
 	start     time.Time
 	aborted   bool
 	ops       []string
@@ -388,6 +478,18 @@ func (w *world) doRead(st *step, c *call) {
 	switch c.kind {
 	case rPrimary, rTake:
 		if c.kind == rTake && w.cache != nil {
+			if c.withExp {
+				c.err = w.cache.TakeWithExpire(&v, ent.pkey, func(v any, expire time.Duration) error {
+					// the expiry handed to the loader is the one the entry is going to be written with
+					if expire < w.minTTL(w.e)-time.Millisecond || expire > time.Duration(1.05*float64(w.e))+time.Millisecond {
+						w.fail("take-with-expire:expiry-out-of-bounds", "TakeWithExpire(%s) handed the expiry %v to the loader; the configured expiry is %v (+/-5%%)", ent.pkey, expire, w.e)
+					}
+					w.r.Probe("take-with-expire")
+					_, err := w.query(st, c, qPrimary, v)
+					return err
+				})
+				break
+			}
 			c.err = w.cache.Take(&v, ent.pkey, func(v any) error {
 				_, err := w.query(st, c, qPrimary, v)
 				return err
@@ -400,7 +502,7 @@ func (w *world) doRead(st *step, c *call) {
 		})
 	case rIndex:
 		c.err = w.cc.QueryRowIndex(&v, ent.ikey, func(primary any) string {
-			return fmt.Sprintf("p:%v", primary)
+			return fmt.Sprintf("p%s:%v", w.pfx, primary)
 		}, func(conn sqlx.SqlConn, v any) (any, error) {
 			return w.query(st, c, qIndex, v)
 		}, func(conn sqlx.SqlConn, v, primary any) error {
@@ -428,6 +530,9 @@ func (w *world) doRead(st *step, c *call) {
 	default:
 		c.out = oStoreErr
 	}
+	if w.cache != nil && w.cache.IsNotFound(c.err) != (c.out == oNotFound) {
+		w.fail("is-not-found-mismatch", "call %d (%s) returned %v; Cache.IsNotFound says %v, the configured not-found error is %q", c.id, readKindNames[c.kind], c.err, w.cache.IsNotFound(c.err), w.errNF)
+	}
 }
 
 func (w *world) injected(err error) *qexec {
@@ -447,7 +552,34 @@ func (w *world) doWrite(st *step) {
 	if st.keyRev {
 		keys[0], keys[1] = keys[1], keys[0]
 	}
+	if len(st.more) > 0 {
+		keys = st.keyList
+	}
+	if st.kind == kDelCache && st.only > 0 {
+		keys = []string{ent.keys()[st.only-1]}
+	}
 	switch st.kind {
+	case kNoCache:
+		st.connPre = len(w.conn.log.calls)
+		q := fmt.Sprintf("statement %d for row ?", w.tick())
+		var v row
+		var vs []row
+		switch st.nocache {
+		case 0:
+			st.err = w.cc.QueryRowNoCache(&v, q, ent.id)
+		case 1:
+			_, st.err = w.cc.ExecNoCache(q, ent.id)
+		case 2:
+			st.err = w.cc.QueryRowsNoCache(&vs, q, ent.id)
+		case 3:
+			st.err = w.cc.QueryRowPartialNoCache(&v, q, ent.id)
+		default:
+			st.err = w.cc.QueryRowsPartialNoCache(&vs, q, ent.id)
+		}
+		calls := w.conn.log.calls[st.connPre:]
+		if len(calls) != 1 || calls[0].method != noCacheConnMethods[st.nocache] || calls[0].q != q || len(calls[0].args) != 1 || calls[0].args[0] != any(ent.id) {
+			w.fail("no-cache-pass-through", "%s(%q, %d) reached the database connection as %+v", noCacheNames[st.nocache], q, ent.id, calls)
+		}
 	case kWrite, kDelete, kFailExec:
 		_, st.err = w.cc.Exec(func(conn sqlx.SqlConn) (sql.Result, error) {
 			for i := 0; i < st.qYields; i++ {
@@ -456,18 +588,20 @@ func (w *world) doWrite(st *step) {
 			if st.qLat > 0 {
 				w.r.Sleep(st.qLat)
 			}
-			switch st.kind {
-			case kFailExec:
+			if st.kind == kFailExec {
 				return nil, errWrite
-			case kWrite:
-				w.nVer++
-				ent.ver = w.nVer
-			case kDelete:
-				ent.ver = 0
 			}
-			ent.hist = append(ent.hist, ent.ver)
+			for _, ent := range st.ents() {
+				if st.kind == kWrite {
+					w.nVer++
+					ent.ver = w.nVer
+				} else {
+					ent.ver = 0
+				}
+				ent.hist = append(ent.hist, ent.ver)
+				w.r.Ev("db-write", int64(ent.idx), int64(ent.ver))
+			}
 			st.wroteVer = ent.ver
-			w.r.Ev("db-write", int64(ent.idx), int64(ent.ver))
 			return execResult{}, nil
 		}, keys...)
 	case kSetCache:
@@ -513,16 +647,47 @@ func (ru *rule) matches(c *simredis.Cmd) bool {
 	return false
 }
 
-func (w *world) faultFn(c *simredis.Cmd) simredis.Fault {
+// observe learns which node serves a key from where the cache sends the commands that read or
+// write it, and holds the cache to it: whatever the dispatch rule is, a key that is looked up on
+// one node and stored on another is never found again.  (A DEL reaching a node that does not hold
+// the key is harmless and only counted.)
+func (w *world) observe(n *node, c *simredis.Cmd) {
+	name := c.Name()
+	if len(c.Args) < 2 || name == "PING" {
+		return
+	}
+	if name == "DEL" {
+		for _, k := range c.Args[1:] {
+			if o := w.owner[k]; o != nil && o != n {
+				w.r.Probe("del-sent-to-foreign-node")
+			}
+		}
+		return
+	}
+	k := c.Args[1]
+	if w.byKey[k] == nil {
+		return
+	}
+	switch o := w.owner[k]; {
+	case o == nil:
+		w.owner[k] = n
+	case o != n:
+		w.fail("key-dispatched-to-two-nodes", "%s %s was sent to node %d (%s); the key has been served by node %d (%s) before", name, k, n.idx, n.addr, o.idx, o.addr)
+	}
+}
+
+func (w *world) faultFn(n *node, c *simredis.Cmd) simredis.Fault {
 	if debugOps {
-		w.ops = append(w.ops, fmt.Sprintf("    send %v task=%d conn=%d seq=%d tape=%d t=%v", c.Args, c.Task, c.Conn, w.r.Seq(), w.t.Pos(), w.r.Elapsed()))
+		w.ops = append(w.ops, fmt.Sprintf("    send node%d %v task=%d conn=%d seq=%d tape=%d t=%v", n.idx, c.Args, c.Task, c.Conn, w.r.Seq(), w.t.Pos(), w.r.Elapsed()))
 	}
 	if c.Handshake() {
 		return simredis.Fault{}
 	}
-	if w.down != simredis.None {
-		w.noteFault()
-		return simredis.Fault{Kind: w.down, Msg: "ERR injected store failure"}
+	w.taskCmds[c.Task]++
+	w.observe(n, c)
+	if n.down != simredis.None {
+		w.noteFault(n)
+		return simredis.Fault{Kind: n.down, Msg: "ERR injected store failure"}
 	}
 	now := time.Now()
 	for _, ru := range w.rules {
@@ -545,62 +710,82 @@ func (w *world) faultFn(c *simredis.Cmd) simredis.Fault {
 			}
 			return simredis.Fault{Kind: simredis.Latency, RepDelay: ru.delay}
 		}
-		w.noteFault()
+		w.noteFault(n)
 		return simredis.Fault{Kind: ru.kind, Msg: ru.msg}
 	}
 	return simredis.Fault{}
 }
 
-func (w *world) noteFault() {
+func (w *world) noteFault(n *node) {
 	now := time.Now()
-	w.faults = append(w.faults, now)
+	n.faults = append(n.faults, now)
+	n.lastFault = now
+	n.nFault++
 	w.lastFault = now
 }
 
-// breakerRisk: enough store commands failed recently that go-zero's redis breaker may reject
+// breakerRisk: enough commands to the node failed recently that go-zero's redis breaker may reject
 // commands by itself (googleBreaker: more than 5 non-accepted requests in its 10 s window).
-func (w *world) breakerRisk() bool {
+func (w *world) breakerRisk(n *node) bool {
 	if !w.faulty {
 		return false
 	}
-	n := 0
+	cnt := 0
 	now := time.Now()
-	for _, at := range w.faults {
+	for _, at := range n.faults {
 		if now.Sub(at) <= 11*time.Second {
-			n++
+			cnt++
 		}
 	}
-	return n >= 4
+	return cnt >= 4
 }
 
-func (w *world) onExec(e *simredis.Exec) {
+// riskEnt: breakerRisk for a node that owns one of the row's keys.
+func (w *world) riskEnt(e *entity) bool {
+	return w.breakerRisk(w.ownerOf(e.pkey)) || w.breakerRisk(w.ownerOf(e.ikey))
+}
+
+func (w *world) ownerOf(k string) *node {
+	if n := w.owner[k]; n != nil {
+		return n
+	}
+	return w.nodes[0]
+}
+
+func keyIdx(e *entity, k string) int {
+	if k == e.ikey {
+		return 1
+	}
+	return 0
+}
+
+func (w *world) onExec(n *node, e *simredis.Exec) {
 	if e.Cmd.Handshake() {
 		return
 	}
 	name := e.Cmd.Name()
-	w.r.Ev("exec:"+name, int64(len(e.Cmd.Args)))
+	w.r.Ev("exec:"+name, int64(len(e.Cmd.Args)), int64(n.idx))
 	if debugOps {
-		w.ops = append(w.ops, fmt.Sprintf("    exec %v task=%d conn=%d fault=%v seq=%d tape=%d t=%v", e.Cmd.Args, e.Cmd.Task, e.Cmd.Conn, e.Fault, w.r.Seq(), w.t.Pos(), w.r.Elapsed()))
+		w.ops = append(w.ops, fmt.Sprintf("    exec node%d %v task=%d conn=%d fault=%v seq=%d tape=%d t=%v", n.idx, e.Cmd.Args, e.Cmd.Task, e.Cmd.Conn, e.Fault, w.r.Seq(), w.t.Pos(), w.r.Elapsed()))
 	}
 	if name != "DEL" {
 		return
 	}
 	h := w.isHarness(e.Cmd.Task)
 	now, clk := time.Now(), w.tick()
-	seen := map[*entity]bool{}
 	for _, k := range e.Cmd.Args[1:] {
-		w.dels = append(w.dels, delExec{key: k, at: now, clk: clk, harness: h})
 		ent := w.byKey[k]
-		if ent == nil || seen[ent] {
-			continue
+		if ent == nil || w.ownerOf(k) != n {
+			continue // a DEL on a node that does not hold the key deletes nothing
 		}
-		seen[ent] = true
+		w.dels = append(w.dels, delExec{key: k, at: now, clk: clk, harness: h})
 		if !h {
-			// a DEL sent by the cleaner reached the server: the failed invalidation is made up for
-			ent.cleanerDone++
+			// a DEL sent by the cleaner reached the key's node: the failed invalidation is made up for
+			j := keyIdx(ent, k)
+			ent.cleanerDone[j]++
 			w.r.Probe("cleaner-retry-executed")
-			if ent.dirty {
-				ent.dirty = false
+			if ent.dirtyK[j] {
+				ent.dirtyK[j] = false
 				w.r.Probe("del-failed-and-cleaner-retried")
 			}
 		}
@@ -608,8 +793,9 @@ func (w *world) onExec(e *simredis.Exec) {
 }
 
 func (w *world) snapKey(k string) snap {
-	w.srv.Sync()
-	mr := w.srv.MR()
+	srv := w.ownerOf(k).srv
+	srv.Sync()
+	mr := srv.MR()
 	s := snap{at: time.Now()}
 	if !mr.Exists(k) {
 		return s
@@ -624,7 +810,15 @@ func (w *world) snapKey(k string) snap {
 	return s
 }
 
-func (w *world) cleanerPending(e *entity) bool { return e.cleanerMaybe > e.cleanerDone }
+func (w *world) cleanerPending(e *entity) bool {
+	return e.cleanerMaybe[0] > e.cleanerDone[0] || e.cleanerMaybe[1] > e.cleanerDone[1]
+}
+
+// clean: nothing was injected on the node since the step was prepared, it is up, and its breaker
+// cannot have an opinion: whatever the step sent there was executed and answered.
+func (w *world) clean(st *step, n *node) bool {
+	return !st.downPre[n.idx] && !st.riskPre[n.idx] && n.nFault == st.nfPre[n.idx] && n.down == simredis.None && !w.breakerRisk(n)
+}
 
 // ---------------------------------------------------------------------------------------
 // set-up
@@ -633,60 +827,131 @@ var expiries = []time.Duration{10 * time.Second, time.Second, 2 * time.Second, 3
 	30 * time.Second, time.Minute, 90 * time.Second, 5 * time.Minute, 1500 * time.Millisecond, 10 * time.Minute, 30 * time.Minute, time.Hour, 3 * time.Hour}
 var nfExpiries = []time.Duration{5 * time.Second, time.Second, 2 * time.Second, 10 * time.Second, 2500 * time.Millisecond, time.Minute, 10 * time.Minute}
 
+// newNode takes a simulated server for the run.  addr "" = the server's own run-unique address.
+func (w *world) newNode(addr string, weight int) *node {
+	n := &node{idx: len(w.nodes), srv: simredis.New(w.r), addr: addr, weight: weight}
+	if addr == "" {
+		n.addr = n.srv.Addr
+	}
+	n.srv.Fault = func(c *simredis.Cmd) simredis.Fault { return w.faultFn(n, c) }
+	n.srv.OnExec = func(e *simredis.Exec) { w.onExec(n, e) }
+	w.nodes = append(w.nodes, n)
+	return n
+}
+
+const defaultExpiry = 7 * 24 * time.Hour // documented default of the cache options (readme / cacheopt.go)
+
 func newWorld(r *simrt.Run, tier string) *world {
 	t := r.Tape
-	w := &world{r: r, t: t, tier: tier, start: time.Now(), byKey: map[string]*entity{}, gauge: map[string]int{}, htask: map[int]bool{}}
+	w := &world{r: r, t: t, tier: tier, start: time.Now(), byKey: map[string]*entity{}, gauge: map[string]int{}, htask: map[int]bool{},
+		owner: map[string]*node{}, taskCmds: map[int]int{}}
+	w.conn = fakeConn{log: &connLog{}}
 	// the cleaner's wheel and task runner are package globals: rebuild them on this run's clock
 	w.tw = cache.VerifResetCleaner()
-	w.srv = simredis.New(r)
-	w.srv.Fault = w.faultFn
-	w.srv.OnExec = w.onExec
+	// go-zero shares go-redis clients by address for the life of the process; the cluster mode uses
+	// addresses that depend on the tape only and may therefore come back
+	redis.VerifC06ResetClients()
 	w.faulty = t.Intn(5) >= 3
-	w.variant = t.Intn(3)
+	w.variant = t.Intn(4)
+	w.cluster = w.variant == 3
 	ne := len(expiries)
+	w.maxJump = 3 * time.Hour
 	if tier != "thorough" {
 		ne -= 2 // hour-scale expiries only in the thorough tier (one wheel tick per virtual second)
+		w.maxJump = 30 * time.Minute
 	}
 	w.e = expiries[t.Intn(ne)]
 	w.nfe = nfExpiries[t.Intn(len(nfExpiries))]
 	var opts []cache.Option
-	switch t.Intn(3) {
+	switch []int{0, 0, 0, 0, 0, 0, 1, 1, 1, 2, 2, 2, 2, 4, 5, 6}[t.Intn(16)] {
 	case 0:
 		opts = []cache.Option{cache.WithExpiry(w.e), cache.WithNotFoundExpiry(w.nfe)}
+		w.optDesc = "WithExpiry, WithNotFoundExpiry"
 	case 1:
 		opts = []cache.Option{cache.WithNotFoundExpiry(w.nfe), cache.WithExpiry(w.e)}
-	default:
-		// the configured defaults: 7 days / 1 minute would need weeks of virtual time; keep the
-		// not-found default only
+		w.optDesc = "WithNotFoundExpiry, WithExpiry"
+	case 2:
+		// the not-found default (1 minute)
 		opts = []cache.Option{cache.WithExpiry(w.e)}
 		w.nfe = time.Minute
+		w.optDesc = "WithExpiry"
+	case 4:
+		// the expiry default (7 days): entries are checked for their TTL, nobody waits for them to expire
+		opts = []cache.Option{cache.WithNotFoundExpiry(w.nfe)}
+		w.e = defaultExpiry
+		w.optDesc = "WithNotFoundExpiry"
+	case 5:
+		w.e, w.nfe = defaultExpiry, time.Minute
+		w.optDesc = "no option"
+	default:
+		// zero or negative values ask for the defaults
+		bad := []time.Duration{0, -time.Second}
+		opts = []cache.Option{cache.WithExpiry(bad[t.Intn(2)]), cache.WithNotFoundExpiry(bad[t.Intn(2)])}
+		if t.Bool() {
+			// ... and a later option overrides an earlier one
+			opts = append([]cache.Option{cache.WithExpiry(w.e)}, opts...)
+		}
+		w.e, w.nfe = defaultExpiry, time.Minute
+		w.optDesc = "WithExpiry(<=0), WithNotFoundExpiry(<=0)"
 	}
-	rds := redis.New(w.srv.Addr, redis.WithHook(w.srv.Hook()))
+	if w.e == defaultExpiry {
+		r.Probe("default-expiry")
+	}
+	newStat := func(name string) *cache.Stat {
+		if t.Bool() {
+			return cache.NewStat(name) // starts the stat logger on the virtual clock
+		}
+		return &cache.Stat{}
+	}
 	switch w.variant {
 	case 0:
 		// the harness builds the node: own barrier, own stat, own not-found error
+		n := w.newNode("", 100)
+		rds := redis.New(n.addr, redis.WithHook(n.srv.Hook()))
 		w.errNF = errors.New("c06: no such row")
-		var st *cache.Stat
-		if t.Bool() {
-			st = cache.NewStat(w.srv.Addr) // starts the stat logger on the virtual clock
-		} else {
-			st = &cache.Stat{}
-		}
-		w.cache = cache.NewNode(rds, syncx.NewSingleFlight(), st, w.errNF, opts...)
+		w.cache = cache.NewNode(rds, syncx.NewSingleFlight(), newStat(n.addr), w.errNF, opts...)
 		w.cc = sqlc.NewConnWithCache(w.conn, w.cache)
 	case 1:
+		n := w.newNode("", 100)
+		rds := redis.New(n.addr, redis.WithHook(n.srv.Hook()))
 		w.errNF = sqlc.ErrNotFound
 		w.cc = sqlc.NewConnWithCache(w.conn, cache.NewNode(rds, syncx.NewSingleFlight(), &cache.Stat{}, sqlc.ErrNotFound, opts...))
-	default:
+	case 2:
 		// cache.New with a one-node cluster configuration.  It builds its own redis.Redis from the
 		// configuration (no way to pass a hook), so the go-redis client for this address is created
 		// first, with the transport hook, through rds; go-zero shares clients by address.
+		n := w.newNode("", 100)
+		rds := redis.New(n.addr, redis.WithHook(n.srv.Hook()))
 		w.errNF = sqlc.ErrNotFound
 		if !rds.Ping() {
 			r.EngineError("c06: cannot reach the simulated redis")
 		}
-		conf := cache.CacheConf{{RedisConf: redis.RedisConf{Host: w.srv.Addr, Type: redis.NodeType, NonBlock: t.Bool(), PingTimeout: time.Minute}, Weight: 100}}
+		conf := cache.CacheConf{{RedisConf: redis.RedisConf{Host: n.addr, Type: redis.NodeType, NonBlock: t.Bool(), PingTimeout: time.Minute}, Weight: 100}}
 		w.cc = sqlc.NewConn(w.conn, conf, opts...)
+	default:
+		// a cluster of 2-3 nodes with weights.  The node address is what the consistent hash places
+		// on the ring, so the addresses (and the key names, below) come from the tape.
+		nn := t.Range(2, 3)
+		var conf cache.ClusterConf
+		for i := 0; i < nn; i++ {
+			weight := []int{100, 100, 50, 30, 10, 200}[t.Intn(6)]
+			n := w.newNode(fmt.Sprintf("c06-%c%d.verif:6379", 'a'+i, t.Intn(40)), weight)
+			rds := redis.New(n.addr, redis.WithHook(n.srv.Hook()))
+			if !rds.Ping() {
+				r.EngineError("c06: cannot reach the simulated redis node %d", i)
+			}
+			conf = append(conf, cache.NodeConf{RedisConf: redis.RedisConf{Host: n.addr, Type: redis.NodeType, NonBlock: t.Bool(), PingTimeout: time.Minute}, Weight: weight})
+		}
+		w.pfx = fmt.Sprint(t.Intn(1000))
+		if t.Bool() {
+			w.errNF = sqlc.ErrNotFound
+			w.cc = sqlc.NewConn(w.conn, conf, opts...)
+		} else {
+			w.errNF = errors.New("c06: no such row")
+			w.cache = cache.New(conf, syncx.NewSingleFlight(), newStat("c06"), w.errNF, opts...)
+			w.cc = sqlc.NewConnWithCache(w.conn, w.cache)
+		}
+		r.Probe("cluster")
 	}
 	r.MarkBackground(func(name string) bool {
 		return strings.Contains(name, "timingwheel.go") || strings.Contains(name, "cachestat.go")
@@ -694,8 +959,8 @@ func newWorld(r *simrt.Run, tier string) *world {
 	n := t.Range(2, 4)
 	for i := 0; i < n; i++ {
 		ent := &entity{idx: i, id: int64(101 + i), name: fmt.Sprintf("n%d", i)}
-		ent.pkey = fmt.Sprintf("p:%d", ent.id)
-		ent.ikey = "i:" + ent.name
+		ent.pkey = fmt.Sprintf("p%s:%d", w.pfx, ent.id)
+		ent.ikey = fmt.Sprintf("i%s:%s", w.pfx, ent.name)
 		if !t.Bool() {
 			w.nVer++
 			ent.ver = w.nVer
@@ -705,11 +970,60 @@ func newWorld(r *simrt.Run, tier string) *world {
 		w.byKey[ent.pkey] = ent
 		w.byKey[ent.ikey] = ent
 	}
+	if w.cluster {
+		w.placement()
+	}
 	return w
 }
 
+// placement: the store is empty, so asking the cache for every key once (a miss, by Get through
+// the cache value when the harness owns it) shows which node the cache takes for it.
+func (w *world) placement() {
+	used := map[*node]bool{}
+	for _, ent := range w.ents {
+		for _, k := range ent.keys() {
+			var v row
+			var err error
+			if w.cache != nil {
+				err = w.cache.Get(k, &v)
+			} else {
+				err = w.cc.GetCache(k, &v)
+			}
+			if !errors.Is(err, w.errNF) {
+				w.fail("miss-not-reported-as-not-found", "GetCache(%s) on the empty cluster returned %v, not the configured not-found error", k, err)
+			}
+			if w.owner[k] == nil {
+				w.fail("key-not-dispatched", "GetCache(%s) reached none of the %d nodes", k, len(w.nodes))
+				w.owner[k] = w.nodes[0]
+			}
+			used[w.owner[k]] = true
+		}
+		if w.owner[ent.pkey] != w.owner[ent.ikey] {
+			w.r.Probe("row-keys-on-two-nodes")
+		}
+	}
+	w.r.Probe(fmt.Sprintf("cluster-keys-on-%d-of-%d-nodes", len(used), len(w.nodes)))
+}
+
+func (w *world) placementDesc() []string {
+	var out []string
+	for _, n := range w.nodes {
+		var ks []string
+		for k, o := range w.owner {
+			if o == n {
+				ks = append(ks, k)
+			}
+		}
+		sort.Strings(ks)
+		out = append(out, fmt.Sprintf("node%d %s weight %d: %s", n.idx, n.addr, n.weight, strings.Join(ks, " ")))
+	}
+	return out
+}
+
 func (w *world) close() {
-	w.down = simredis.None
+	for _, n := range w.nodes {
+		n.down = simredis.None
+	}
 	w.rules = nil
 	w.tw.Stop()
 }
@@ -757,6 +1071,9 @@ func (w *world) genStep(ent *entity, allowWrite bool) *step {
 		}
 	default:
 		st.kind = kDelCache
+		if t.Chance(1, 3) {
+			st.only = 1 + t.Intn(2)
+		}
 	}
 	st.qLat = w.drawLat()
 	st.qYields = t.Intn(3)
@@ -781,6 +1098,9 @@ func (w *world) genStep(ent *entity, allowWrite bool) *step {
 				c.kind = rIndex
 			default:
 				c.kind = readKind(t.Intn(4))
+			}
+			if c.kind == rTake && w.cache != nil {
+				c.withExp = t.Chance(1, 3)
 			}
 			if i > 0 && t.Chance(1, 3) {
 				c.think = time.Duration(t.Range(1, 60)) * time.Millisecond
@@ -853,6 +1173,18 @@ func (w *world) genFault(st *step) {
 
 func (st *step) String() string {
 	s := fmt.Sprintf("%s row%d", stepKindNames[st.kind], st.ent.idx)
+	for _, e := range st.more {
+		s += fmt.Sprintf("+row%d", e.idx)
+	}
+	if len(st.more) > 0 {
+		s += fmt.Sprintf(" keys=%v", st.keyList)
+	}
+	if st.kind == kNoCache {
+		s += " " + noCacheNames[st.nocache]
+	}
+	if st.kind == kDelCache && st.only > 0 {
+		s += " only " + st.ent.keys()[st.only-1]
+	}
 	if st.kind == kRead {
 		s += "["
 		for i, c := range st.readers {
@@ -881,21 +1213,69 @@ func (st *step) String() string {
 			s += "+" + st.faultExt.String()
 		}
 	}
-	if st.outage {
-		s += " (store down)"
+	if st.anyOut() {
+		var ks []string
+		for _, e := range st.ents() {
+			for _, k := range e.keys() {
+				if st.out(k) {
+					ks = append(ks, k)
+				}
+			}
+		}
+		s += fmt.Sprintf(" (node down for %v)", ks)
 	}
 	return s
+}
+
+// genMulti: one call that writes / invalidates 2..all rows at once (a batch update, a DelCache of
+// many keys); in a cluster the keys live on different nodes.
+func (w *world) genMulti() *step {
+	t := w.t
+	p := t.Perm(len(w.ents))
+	n := t.Range(2, len(w.ents))
+	st := &step{ent: w.ents[p[0]]}
+	for _, i := range p[1:n] {
+		st.more = append(st.more, w.ents[i])
+	}
+	st.kind = []stepKind{kDelCache, kWrite, kDelete}[t.Intn(3)]
+	st.qLat = w.drawLat()
+	st.qYields = t.Intn(3)
+	st.direct = t.Bool()
+	var keys []string
+	for _, e := range st.ents() {
+		keys = append(keys, e.keys()...)
+	}
+	for _, i := range t.Perm(len(keys)) {
+		st.keyList = append(st.keyList, keys[i])
+	}
+	if w.faulty {
+		w.genFault(st)
+	}
+	w.r.Probe("multi-row-invalidation")
+	return st
+}
+
+func (w *world) genNoCache() *step {
+	return &step{kind: kNoCache, ent: w.ents[w.t.Intn(len(w.ents))], nocache: w.t.Intn(len(noCacheNames))}
 }
 
 // item generates and runs the next element of the history.
 func (w *world) item() {
 	t := w.t
-	k := t.Intn(10)
+	k := t.Intn(12)
 	switch {
 	case k < 5:
 		w.runSteps(w.genStep(w.ents[t.Intn(len(w.ents))], true))
 	case k < 8:
 		w.advance()
+	case k == 10:
+		w.runSteps(w.genMulti())
+	case k == 11:
+		if t.Bool() {
+			w.runSteps(w.genNoCache())
+		} else {
+			w.runSteps(w.genMulti())
+		}
 	case k == 8:
 		// operations on two different rows run concurrently
 		p := t.Perm(len(w.ents))
@@ -922,22 +1302,47 @@ func (w *world) outage() {
 	t := w.t
 	n := t.Range(1, 2)
 	kind := []simredis.Kind{simredis.ResetBefore, simredis.ResetBefore, simredis.ErrReply, simredis.DropRequest}[t.Intn(4)]
-	w.ops = append(w.ops, "store down ("+kind.String()+" on every command)")
-	w.down = kind
+	// faults hit the nodes independently: one node, two nodes, or all of them
+	downs := w.nodes
+	if len(w.nodes) > 1 {
+		n = t.Range(1, 4)
+		p := t.Perm(len(w.nodes))
+		switch t.Intn(4) {
+		case 0, 1:
+			downs = []*node{w.nodes[p[0]]}
+		case 2:
+			downs = []*node{w.nodes[p[0]], w.nodes[p[1]]}
+		}
+	}
+	desc := ""
+	for _, nd := range downs {
+		nd.down = kind
+		desc += fmt.Sprintf(" node%d", nd.idx)
+	}
+	w.ops = append(w.ops, "store down:"+desc+" ("+kind.String()+" on every command)")
 	for i := 0; i < n && !w.aborted; i++ {
-		st := w.genStep(w.ents[t.Intn(len(w.ents))], true)
+		var st *step
+		if t.Chance(1, 4) {
+			st = w.genMulti()
+		} else {
+			st = w.genStep(w.ents[t.Intn(len(w.ents))], true)
+		}
 		st.fault, st.faultExt = fNone, 0
-		st.outage = true
 		w.runSteps(st)
 	}
 	ext := []time.Duration{0, 1500 * time.Millisecond, 7 * time.Second, 70 * time.Second}[t.Intn(4)]
 	if ext > 0 {
 		w.r.Sleep(ext)
 	}
-	w.noteFault()
-	w.down = simredis.None
+	for _, nd := range downs {
+		w.noteFault(nd)
+		nd.down = simredis.None
+	}
 	w.ops = append(w.ops, fmt.Sprintf("store up after %v more", ext))
 	w.r.Probe("store-outage")
+	if len(downs) < len(w.nodes) {
+		w.r.Probe("partial-outage")
+	}
 }
 
 // advance moves the clock: by a little, to an instant around the expiry of an entry that is in
@@ -954,7 +1359,7 @@ func (w *world) advance() {
 	if mode >= 2 {
 		for _, e := range w.ents {
 			for _, k := range e.keys() {
-				if s := w.snapKey(k); s.ex && s.ttl > 0 {
+				if s := w.snapKey(k); s.ex && s.ttl > 0 && s.ttl < w.maxJump {
 					lives = append(lives, live{k, s})
 				}
 			}
@@ -965,7 +1370,7 @@ func (w *world) advance() {
 		d = time.Duration(t.Range(1, 3000)) * time.Millisecond
 	case mode == 1:
 		base := w.e
-		if t.Bool() {
+		if t.Bool() || base > w.maxJump {
 			base = w.nfe
 		}
 		f := []float64{0.5, 0.95, 1.0, 1.05, 1.2}[t.Intn(5)]
@@ -994,9 +1399,28 @@ func (w *world) addRule(st *step, ru *rule) {
 func (w *world) prepare(st *step) {
 	ent := st.ent
 	st.pre[0], st.pre[1] = w.snapKey(ent.pkey), w.snapKey(ent.ikey)
-	st.dirtyPre = ent.dirty
+	st.dirtyPre = ent.dirty()
 	st.pendPre = w.cleanerPending(ent)
-	st.breakerRsk = w.breakerRisk()
+	st.breakerRsk = w.riskEnt(ent)
+	st.outK = map[string]bool{}
+	owns := map[*node]bool{}
+	for _, e := range st.ents() {
+		for _, k := range e.keys() {
+			o := w.ownerOf(k)
+			owns[o] = true
+			if o.down != simredis.None {
+				st.outK[k] = true
+			}
+		}
+	}
+	for _, n := range w.nodes {
+		st.nfPre = append(st.nfPre, n.nFault)
+		st.riskPre = append(st.riskPre, w.breakerRisk(n))
+		st.downPre = append(st.downPre, n.down != simredis.None)
+		if n.down != simredis.None && !owns[n] {
+			st.otherDown = true
+		}
+	}
 	keys := ent.keys()
 	switch st.fault {
 	case fErrGET:
@@ -1062,6 +1486,7 @@ func (w *world) launch(st *step) []*simrt.Task {
 		w.r.Ev("return-w", int64(st.kind), ok)
 	})
 	w.htask[tk.ID] = true
+	st.taskID = tk.ID
 	return []*simrt.Task{tk}
 }
 
@@ -1105,15 +1530,25 @@ func body(r *simrt.Run, tier string) {
 	r.Probe("oracle")
 	r.Probe("nontrivial")
 	if debugOps {
-		fmt.Fprintf(os.Stderr, "C06 run: variant=%d faulty=%v e=%v nfe=%v elapsed=%v execs=%d\n  %s\n", w.variant, w.faulty, w.e, w.nfe, r.Elapsed(), w.srv.Executed(), strings.Join(w.ops, "\n  "))
+		fmt.Fprintf(os.Stderr, "C06 run: variant=%d faulty=%v e=%v nfe=%v elapsed=%v placement=%v\n  %s\n", w.variant, w.faulty, w.e, w.nfe, r.Elapsed(), w.placementDesc(), strings.Join(w.ops, "\n  "))
 	}
 	ents := ""
 	for _, e := range w.ents {
 		ents += fmt.Sprintf("row%d:%v ", e.idx, e.hist)
 	}
-	r.Sample(map[string]any{"construction": []string{"cache.NewNode+NewConnWithCache", "sqlc.NewNodeConn", "sqlc.NewConn(one-node cluster conf)"}[w.variant],
+	construction := []string{"cache.NewNode+NewConnWithCache", "sqlc.NewNodeConn", "sqlc.NewConn(one-node cluster conf)", "sqlc.NewConn(cluster conf)"}[w.variant]
+	if w.cluster && w.cache != nil {
+		construction = "cache.New(cluster conf)+NewConnWithCache"
+	}
+	fired := map[string]int{}
+	for _, n := range w.nodes {
+		for k, v := range n.srv.FiredMap() {
+			fired[fmt.Sprintf("node%d:%s", n.idx, k)] = v
+		}
+	}
+	r.Sample(map[string]any{"construction": construction, "options": w.optDesc, "nodes_and_keys": w.placementDesc(),
 		"fault_injecting": w.faulty, "expiry": w.e.String(), "not_found_expiry": w.nfe.String(), "rows_version_history": strings.TrimSpace(ents),
-		"history": w.ops, "store_faults_fired": w.srv.FiredMap()})
+		"history": w.ops, "store_faults_fired": fired})
 }
 
 func config(t *simrt.Tape, tier string) simrt.Config {
